@@ -214,7 +214,14 @@ def run(pid, tier, seed, args, t0):
             if (pid, sig) in known_sigs:
                 seen_known.setdefault(sig, rec)
             else:
-                violations.append(rec)
+                otag = signatures.options_tag(fail_cfgs.get((v["idx"], f["w"]), [{}]))
+                alts = signatures.single_comment_variants(pid, f["w"], src, case, ce, f.get("i", 0), otag) + \
+                       (signatures.single_comment_variants(pid, f["w"], src, case, ce, f.get("i", 0), "") if otag else [])
+                hit = next((a for a in alts if (pid, a) in known_sigs), None)
+                if hit is not None:
+                    seen_known.setdefault(hit, rec)
+                else:
+                    violations.append(rec)
         g = m["gstats"]
         cov["states"] += g.get("distinct", 0) + m["vstats"]["states"]
         cov["transitions"] += g.get("states", 0) + m["vstats"]["events"]
